@@ -1,7 +1,8 @@
 // C02 harness: the multigrid cycle as an operator, at the exact rational type Q.
 // Ops (header exactly as amg_build, see h_amg.cpp):
 //   amg_apply <hdr> rk <relax params> npre npost ncycle pre_cycles 4 f g f h     with h = a f + b g (a,b appended)
-//   amg_bmat  <hdr> rk <relax params> npre npost ncycle pre_cycles               (B extracted column by column)
+//   amg_bmat  <hdr> rk <relax params> npre npost ncycle pre_cycles               (B extracted column by column;
+//             implementation-side oracles: B(4 A) = B(A)/4 exactly; symmetric configurations: B = B^T, B SPD, A - E^T A E SPD)
 // rk: 0 damped_jacobi(damping) | 1 gauss_seidel | 2 spai0 | 3 ilu0(damping) | 4 chebyshev(degree higher lower scale)
 #define VH_NO_MAIN
 #include "h_amg.cpp"
@@ -103,6 +104,19 @@ struct Cyc {
             } else {
                 Dense B(n, std::vector<Q>(n));
                 for (long j = 0; j < n; ++j) { std::vector<Q> e(n, Q(0)); e[j] = Q(1); std::vector<Q> c = apply(amg, e); for (long i = 0; i < n; ++i) B[i][j] = c[i]; l << c; }
+                // scaling oracle (C02 "B(2^k A) = 2^-k B(A)", C02e): the hierarchy built by the real code for 4 A, same parameters, must
+                // have the same number of levels and B(4 A) = B(A) / 4 entry by entry (exact rationals); ILU(0) and Chebyshev (rk 3, 4: the
+                // smoothers without a scaling THEOREM before C02e; Jacobi / SPAI-0 / Gauss-Seidel are C02b.smoothers_scale), all coarsenings
+                if (rp.rk >= 3) {
+                    Hdr h4 = h; for (auto &v : h4.A.val) v = v * Q(4);
+                    const char *bad = nullptr;
+                    try {
+                        AMG amg4(*h4.A.crs(), prm);
+                        if (amgcl_verif::access::levels(amg4).size() != nl) bad = "scaling: the hierarchy of 4 A has a different number of levels than that of A";
+                        for (long j = 0; !bad && j < n; ++j) { std::vector<Q> e(n, Q(0)); e[j] = Q(1); std::vector<Q> c4 = apply(amg4, e); for (long i = 0; i < n; ++i) if (c4[i].poison || (c4[i] * Q(4)).v != B[i][j].v) bad = "scaling: B(4 A) != B(A) / 4"; }
+                    } catch (const std::exception &) { bad = "scaling: the hierarchy of A is built but the construction for 4 A throws"; }
+                    if (bad) r.fail(bad); else r.tag("scale4");
+                }
                 if (symcfg && t.pre_cycles >= 1) {
                     Dense Ad = dense(h.A);
                     // 0 = B symmetric positive definite and A - E^T A E positive definite (E = I - B A: contraction in the energy norm),
